@@ -148,11 +148,14 @@ def decode (beginString : Bytes) (tbl : Tbl) (raw : Bytes) : DecRes :=
       | some i => i + 5
       | none => msg.length
     -- frame ends with its CheckSum(10) field
-    let closedAt : Option Nat := match findSub cksumPat msg with
+    let ckAt := findSub cksumPat msg
+    let closedAt : Option Nat := match ckAt with
       | some ci => (match findChar SOH (msg.drop (ci + 1)) with
           | some e => some (e + (ci + 1) + 1)
           | none => none)
       | none => none
+    -- the CheckSum field has started but its terminating SOH has not arrived: wait
+    if ckAt.isSome && closedAt.isNone then .none validIdx else
     let nextMsg := closedAt.getD nextMsg0
     let encoded := msg.take nextMsg
     let fields0 := splitOn SOH encoded
